@@ -683,6 +683,7 @@ def build_cases(ctx, n_base, cap):
 
     def add(c):
         c["id"] = len(cases)
+        c.setdefault("twin", c["id"] % 4 == 1)     # process history of the runner, kept with the case so that replays repeat it
         cases.append(c)
         return c["id"]
 
